@@ -161,7 +161,9 @@ func (e *env) checkFuser(fc *fuserCase, seed int64) error {
 		}
 		return nil
 	}
-	e.oracle(ins, inTypes, o, w)
+	r := &report{}
+	e.oracle(r, ins, inTypes, o, w)
+	r.flush(c)
 	if fc.SpillAt < 0 {
 		fmt.Printf("fuser %s: spill at write %d\ninput:  %s\noutput: %s\n", fc.key(), spillAt, strings.Join(formatInputs(ins), " "), strings.Join(formatAll(o.outs), " "))
 		return nil
